@@ -34,3 +34,4 @@ Definition oracle (c : Case) : bool :=
   | Ok (_, m) => match json_parse m with Some j => json_eqb j (expected (c_cfg c)) | None => false end
   | _ => true
   end.
+Definition info (cs : list Case) : list N := [].
